@@ -608,6 +608,7 @@ type Backends struct {
 	authBackends   map[string]*Backend
 	shards         []map[string]*Backend
 	changedShards  map[int]bool
+	clearedShards  map[int]bool
 	DefaultBackend *Backend
 }
 
